@@ -45,7 +45,11 @@ fn word_case(rep: &mut Report, w: &Word, fam: &str) {
     if w.syllables.len() >= 2 && w.syllables.iter().any(|s| s.tone != 0 || sw::stress_code(s.stress) != 0) { rep.nontrivial(hash64(&sw::word_key(w))); }
     let case = || json!({"kind": "word", "sylls": w.syllables.iter().map(|s| json!({"segs": s.segments.iter().map(|x| json!([x.root, x.manner, x.laryngeal, *x.place])).collect::<Vec<_>>(), "stress": sw::stress_code(s.stress), "tone": s.tone})).collect::<Vec<_>>()});
     // a stop/nasal next to a click (or a click next to a uvular) can be read as one click consonant: the notation itself is ambiguous there
-    let fam = &if text.chars().any(|c| "ʘǀǁǃ‼ǂ".contains(c)) { format!("{fam}:next-to-a-click") } else { fam.to_string() };
+    // (only when the word really has such a pair side by side in one syllable - a click elsewhere in the word explains nothing)
+    let is_click = |g: &str| g.chars().any(|c| "ʘǀǁǃ‼ǂ".contains(c));
+    let ambiguous = w.syllables.iter().any(|sy| { let gs: Vec<String> = sy.segments.iter().map(|x| x.get_as_grapheme().unwrap_or_default()).collect();
+        (1..gs.len()).any(|j| (is_click(&gs[j]) && !is_click(&gs[j - 1]) && gs[j - 1].chars().any(|c| "kɡŋqɢɴ".contains(c))) || (is_click(&gs[j - 1]) && gs[j].chars().next().map(|c| "qɢɴχʁ".contains(c)).unwrap_or(false))) });
+    let fam = &if ambiguous { format!("{fam}:next-to-a-click") } else { fam.to_string() };
     match parse_word(&text) {
         Ok(back) => if back != *w {
             // which feature of the word is lost?
